@@ -889,6 +889,12 @@ pub fn run(cfg: &Cfg, rep: &mut Report) -> PropMeta {
     let mut cheetah: Vec<(usize, bool, (usize, usize, usize))> = vec![];
     for &n in &[8usize, 16, 32] { for ckks in [false, true] { for s in cheetah_shapes(n, boxmax) { cheetah.push((n, ckks, s)); } } }
     timed(rep, "cheetah", |rep| run_cases(cfg, "cheetah", cheetah.len() as u64, rep, |i, rng, rep| { let (n, ckks, s) = cheetah[i as usize]; cheetah_case(cfg, "cheetah", i, rng, rep, n, ckks, s, false) }));
+    {
+        // weight matrices with more than 2^16 entries (index types narrower than usize only differ up there)
+        let mut wide: Vec<(usize, bool, (usize, usize, usize))> = vec![(4096, false, (2, 257, 256)), (1024, true, (2, 256, 257))];
+        if !cfg.quick() { for &n in &[1024usize, 4096] { for ckks in [false, true] { for s in [(3, 300, 290), (1, 70000, 1), (2, 1, 66000)] { wide.push((n, ckks, s)); } } } }
+        timed(rep, "cheetah_wide", |rep| run_cases(cfg, "cheetah_wide", wide.len() as u64, rep, |i, rng, rep| { let (n, ckks, s) = wide[i as usize]; cheetah_case(cfg, "cheetah_wide", i, rng, rep, n, ckks, s, true) }));
+    }
     if !cfg.quick() {
         // degrees and shapes of the library's own examples/tests, plus one inner dimension just past N
         let mut large: Vec<(usize, bool, (usize, usize, usize))> = vec![];
